@@ -31,6 +31,7 @@ BUILTIN_NAMES = {
     "min", "max", "sum", "any", "all", "type", "repr", "super", "hash", "id", "property", "object",
     "exec", "compile", "frozenset", "reversed", "callable", "format", "round", "iter", "next",
     "staticmethod", "classmethod", "filter", "ord", "chr", "bytes", "divmod", "pow", "vars",
+    "bytearray", "memoryview", "complex", "slice",
     "globals", "locals", "open", "input", "eval", "__import__", "NotImplemented", "Ellipsis",
     "True", "False", "None", "__build_class__", "__name__",
 } | {n for n in dir(builtins) if isinstance(getattr(builtins, n), type) and
@@ -824,10 +825,10 @@ class _RandomRandom:
     def pysym_call(self, ctx, interp, args, kwargs):
         ctx.note("stub: random.random() returns an arbitrary j/2^53, 0 <= j < 2^53")
         if ctx.float_mode == "fp":
-            j = z3.BitVec(ctx.fresh_name("random_j"), 53)
+            j = z3.BitVec(ctx.fresh_name("world:random_j"), 53)
             x = z3.fpDiv(RNE, z3.fpUnsignedToFP(RNE, j, FP64), fp_const(float(2 ** 53)))
             return SFP(x)
-        j = z3.Int(ctx.fresh_name("random_j"))
+        j = z3.Int(ctx.fresh_name("world:random_j"))
         ctx.assume(z3.And(j >= 0, j < 2 ** 53))
         return SReal(z3.ToReal(j) / z3.RealVal(2 ** 53))
 
